@@ -531,6 +531,31 @@ def run_layout(case, elems, sigs, recs):
                         recs.append(dict(base0, op=opname, kind="exception", error=f"{type(ex).__name__}: {ex}"[:300]))
                         continue
                     check_vector_result(opname, out, f, True)
+                # operations whose second vector is secondary (axis, booster): the result is the first operand's -
+                # it carries the first operand's extra fields and none of the second's, whatever backend the second is
+                if n >= 3:
+                    sec_ops = {"rotate_axis": (3, lambda v, o: v.rotate_axis(o, 0.3))}
+                    if n == 4:
+                        sec_ops.update({"boost_p4": (4, lambda v, o: v.boost_p4(o)), "boost(4D)": (4, lambda v, o: v.boost(o)),
+                                        "boostCM_of_p4": (4, lambda v, o: v.boostCM_of_p4(o)), "boost_beta3": (3, lambda v, o: v.boost_beta3(o)),
+                                        "boostCM_of(3D)": (3, lambda v, o: v.boostCM_of(o))})
+                    for opname, (sdim, f) in sec_ops.items():
+                        vals = {3: [0.1, -0.2, 0.3], 4: [0.1, -0.2, 0.3, 5.0]}[sdim]
+                        snames = ["x", "y", "z", "t"][:sdim]
+                        sobj = vector.obj(**dict(zip(snames, vals)))
+                        zero = arr.rho * 0.0
+                        cols = {nm: zero + val for nm, val in zip(snames, vals)}
+                        cols["frame_id"] = zero + 7.0
+                        sarr = ak.zip(cols, depth_limit=arr.layout.purelist_depth)
+                        sarr = ak.Array(ak.with_name(sarr, f"Vector{sdim}D"), behavior=vector.backends.awkward.behavior)
+                        for skind, sec in (("awkward-array", sarr), ("object", sobj)):
+                            calls += 1
+                            try:
+                                out = f(arr, sec)
+                            except Exception as ex:
+                                recs.append(dict(base0, op=opname + ":" + skind, kind="exception", error=f"{type(ex).__name__}: {ex}"[:300]))
+                                continue
+                            check_vector_result(opname + ":" + skind, out, (lambda o, f=f: f(o, sobj)), True)
                 for opname, f in TWO_VECTOR_OPS.items():
                     calls += 1
                     try:
